@@ -2,6 +2,7 @@ package main
 
 import (
 	"fmt"
+	"os"
 	"time"
 
 	"verif/sim/enga"
@@ -24,6 +25,7 @@ type propInfo struct {
 	Components  map[string]string
 	Instr       bool      // runs on the scratch copy with inserted scheduling points (non-race build)
 	Also        *propInfo // a second engine that also decides this property
+	RaceAlso    bool      // half of the budget runs the same engine in a race-detector build (other seeds)
 	// systematic fault placement over small base scenarios (engine B), run as a second batch of the check
 	Enum              bool
 	EnumRule          string
@@ -158,12 +160,12 @@ func sprintf(f string, a ...interface{}) string { return fmtSprintf(f, a...) }
 
 var fmtSprintf = fmt.Sprintf
 
-var propC20 = &propInfo{Engine: "C", Level: "exploration", Race: false, Instr: true, QuickS: 50, ThoroughS: 900, PerRunS: 40,
+var propC20 = &propInfo{Engine: "C", Level: "exploration", Race: false, Instr: true, RaceAlso: os.Getenv("VERIF_RACE_VARIANT") == "1", QuickS: 50, ThoroughS: 900, PerRunS: 40,
 	Rule:    "runs are plans generated from mix64(VERIF_SEED, property, run index): 2-4 (quick) / 2-8 (thorough) goroutines with 2-12 scripted calls each (increments with distinct power-of-two deltas, gets, puts of unique values, removes, inserts of unique tags, transactions incl. failing ones whose body can be pre-empted between its calls) on ONE shared Counter / Map / List object, plus a sync goroutine calling Sync() against a model server that also feeds operations of a remote replica; a seeded scheduler decides at every scheduling point (hook H6: lock acquisition, the begin/unlock windows of the transaction layer, pack creation and application) who runs next. Non-trivial: >= 2 goroutines and > 10 scheduling decisions; distinct = distinct hash of the sequence of (task, site) decisions.",
-	Oracles: []string{"C20.no-panic / process-crash (incl. runtime fatal errors such as unlock of an unlocked mutex)", "C20.no-deadlock", "C20.queued-once-in-order", "C20.tx-not-interleaved", "C20.no-lost-update (shared object == replay of the stream; counter == sum)", "C20.linearizable (porcupine, counter and map histories)", "C20.no-race (race detector; the baton is invisible to it)"},
+	Oracles: []string{"C20.no-panic / process-crash (incl. runtime fatal errors such as unlock of an unlocked mutex)", "C20.no-deadlock", "C20.queued-once-in-order", "C20.tx-not-interleaved", "C20.no-lost-update (shared object == replay of the stream; counter == sum)", "C20.linearizable (porcupine, counter and map histories)"},
 	Assumptions: []string{
 		"the check runs on a scratch copy of the client library (bin/instr-src, made from /repo's working tree on every invocation) in which cmd/instr has inserted a scheduling point before every statement of internal/datatypes and internal/managers, plus the hand-placed points of hook H6; one in 2..32 (drawn per run) of the inserted points is a real hand-over. Pre-emption happens only at these points and at calls the harness makes: the explored interleavings are real ones but not all of them (code of other packages, e.g. the data structures under the transaction lock, runs atomically)",
-		"the hand-off between goroutines is a raw futex in //go:norace code, invisible to the race detector; every reported race is between accesses the program itself does not order",
+		"race-detector reports are not judged: C20's statement speaks of lost updates, queueing order, interleaved transactions, deadlocks and panics, not of data races (C12's does, for the server). VERIF_RACE_VARIANT=1 runs half of the budget in a race-detector build of the same instrumented copy as a diagnostic (the scheduler's hand-over is a raw futex in //go:norace code, invisible to the detector); it is not part of the registered commands",
 		"the server is a 40-line model (one log, duplicate rejection by client sequence number); MongoDB and the real server are engine B's business",
 	},
 	Components: map[string]string{
@@ -187,12 +189,12 @@ var propsB = map[string]*propInfo{
 		Oracles: []string{"C06.sseq-gapless", "C06.end-matches", "C06.every-pushed-op-once", "C06.client-order", "C06.checkpoint-sound", "C06.one-datatype-per-key"}},
 	"C07": {Level: "fault_enumeration", QuickS: 80, ThoroughS: 1200, Enum: true, EnumPairsQuick: 60, EnumPairsThorough: 600,
 		EnumRule: "systematic batch: base scenarios (2-3 clients, 1-2 datatypes, 6-15 events quick / 6-24 thorough, fault-free, at least one transaction, every client syncs at the end) generated from mix64(VERIF_SEED, property/enum, index); for each base scenario EVERY single placement of {response dropped, request duplicated (copy after / racing with the original, two schedules), request lost} on every Sync exchange and of {previous request sent again, last response applied again, an earlier response applied late (two choices), response dropped} on every harness-driven exchange is executed as a run of its own, plus a seeded sample of pairs of placements on different exchanges (60 per scenario quick, 600 thorough); the base scenario itself runs with all oracles as the fault-free twin. Counters: probes enum-base-scenarios, enum-base-scenarios-completed, enum-placements.",
-		Rule: sprintf(ruleB, "at least one message fault fired (response dropped, request duplicated, request lost, response delivered late) and an exchange both pushed and pulled"),
-		Oracles: []string{"C07.same-as-fault-free (after heal+drain: clients identical, equal to log replay and server rebuild; every operation stored once, per-client order)", "C07.log-gapless", "C07.client-crash", "C07.every-call-returns"}},
+		Rule:     sprintf(ruleB, "at least one message fault fired (response dropped, request duplicated, request lost, response delivered late) and an exchange both pushed and pulled"),
+		Oracles:  []string{"C07.same-as-fault-free (after heal+drain: clients identical, equal to log replay and server rebuild; every operation stored once, per-client order)", "C07.log-gapless", "C07.client-crash", "C07.every-call-returns"}},
 	"C08": {Level: "fault_enumeration", QuickS: 80, ThoroughS: 1200, Enum: true, EnumPairsQuick: 0, EnumPairsThorough: 150,
 		EnumRule: "systematic batch: base scenarios (2-3 clients, 1-2 datatypes of any kind, 6-15 events quick / 6-24 thorough incl. bursts of >100 operations, at least one committed transaction, every client syncs at the end) generated from mix64(VERIF_SEED, property/enum, index) are first executed fault-free while recording every database command issued while serving each Sync exchange (including the background snapshot work after the answer); then for EVERY exchange r, EVERY command k of it and EVERY kind in {command error before applying, applied then connection lost, server crash before the command, server crash right after it, and for insert commands a partial ordered insert} the scenario is re-executed with that single fault, followed by heal, restart and retries by all clients (final drain); thorough adds 150 seeded pairs of placements per scenario. The base scenario itself runs with all oracles as the fault-free twin. Counters: probes enum-base-scenarios, enum-base-scenarios-completed, enum-placements.",
-		Rule: sprintf(ruleB, "at least one database fault fired (command error before/after applying, partial ordered insert, server crash before/after a command)"),
-		Oracles: []string{"C08.error-not-hang (every-call-returns)", "C08.client-crash / process-crash", "C08.acked-not-lost", "C08.log-gapless / exactly-once / recoverable", "C08.retry-converges"}},
+		Rule:     sprintf(ruleB, "at least one database fault fired (command error before/after applying, partial ordered insert, server crash before/after a command)"),
+		Oracles:  []string{"C08.error-not-hang (every-call-returns)", "C08.client-crash / process-crash", "C08.acked-not-lost", "C08.log-gapless / exactly-once / recoverable", "C08.retry-converges"}},
 	"C11": {Rule: sprintf(ruleB, "at least one stored snapshot document was compared with a replay of its log prefix"),
 		Oracles: []string{"C11.snapshot-equals-prefix", "C11.userdoc-equals-prefix", "C11.version-monotone", "C11.rebuild-paths-agree (server rebuild == full replay)"}},
 	"C12": {Race: true, QuickS: 60, Rule: sprintf(ruleB, "at least two requests were released at the same simulated instant and their database commands interleaved (race-detector build of a scratch copy of the server in which cmd/instr has inserted a scheduling point before every statement that touches a synchronisation object; in 2 of 3 plans these points are seams of the simulator, probe server-scheduling-point; orda's log lines are formatted and written to io.Discard; rogue requests and pairs of overlapping REST patches are mixed into the traffic)"),
